@@ -1891,13 +1891,16 @@ class _GroupElem(ABC):
             coord = self.coord[connect[elem]]
 
             if self.elemType.startswith("PRISM"):
+                # triangular faces are padded with their first node:
+                # once for PRISM6 and twice for PRISM15 and PRISM18
+                Npad = self.order
                 surfaces = np.array(  # type: ignore [type-var]
                     [
                         surfaces[0, :],  # type: ignore [call-overload]
                         surfaces[1, :],  # type: ignore [call-overload]
                         surfaces[2, :],  # type: ignore [call-overload]
-                        surfaces[3, :-1],  # type: ignore [call-overload]
-                        surfaces[4, :-1],  # type: ignore [call-overload]
+                        surfaces[3, :-Npad],  # type: ignore [call-overload]
+                        surfaces[4, :-Npad],  # type: ignore [call-overload]
                     ],
                     dtype=object,
                 )
